@@ -58,7 +58,7 @@ def _sig(ctx, fi, expr, stmt):
     return tuple(sorted(out))
 
 
-def _self_writes(ctx, fi):
+def _self_writes(ctx, fi, depth=0):
     """{target text: [(kind, op, value, stmt)]} for targets rooted at self (attribute stores only)"""
     out = {}
     for w in effects.direct_writes(ctx, fi):
@@ -74,6 +74,37 @@ def _self_writes(ctx, fi):
         if w.kind == 'aug':
             op = type(w.stmt.op).__name__
         out.setdefault(_tkey(t), []).append((w.kind, op, w.value, w.stmt))
+    # one level of delegation: grow and shrink both call a common helper of the same class with constant
+    # arguments (`self._adjust(+1)` / `self._adjust(-1)`): take the helper's writes with the constants put in
+    if depth == 0 and fi.cls is not None:
+        for call in ctx.calls(fi):
+            f = call.node.func
+            if not (isinstance(f, ast.Attribute) and isinstance(f.value, ast.Name) and f.value.id == 'self'):
+                continue
+            if len(call.callees) != 1 or call.callees[0].cls is not fi.cls or call.callees[0] is fi:
+                continue
+            callee = call.callees[0]
+            consts = {}
+            okc = bool(call.node.args) and not call.node.keywords
+            for pname, a in zip(callee.params[1:], call.node.args):
+                v = a
+                neg = False
+                if isinstance(v, ast.UnaryOp) and isinstance(v.op, ast.USub):
+                    v, neg = v.operand, True
+                if isinstance(v, ast.Constant) and isinstance(v.value, int) and not isinstance(v.value, bool):
+                    consts[pname] = -v.value if neg else v.value
+                else:
+                    okc = False
+            if not okc or not consts:
+                continue
+            for tgt, lst in _self_writes(ctx, callee, 1).items():
+                for kind, op, value, st in lst:
+                    if kind == 'aug' and isinstance(value, ast.Name) and value.id in consts:
+                        c = consts[value.id]
+                        flip = {'Add': 'Sub', 'Sub': 'Add'}
+                        out.setdefault(tgt, []).append((kind, flip[op] if c < 0 else op, ast.Constant(value=abs(c)), st))
+                    else:
+                        out.setdefault(tgt, []).append((kind, op, value, st))
     return out
 
 
@@ -90,7 +121,7 @@ def _tkey(t):
 
 
 @rule('SA-ACCT.inverse')
-@props('C03', 'C04', 'C05', 'C10')
+@props('C03', 'C04', 'C05', 'C08', 'C10')
 def inverse(ctx):
     obs = []
     npairs = 0
